@@ -249,10 +249,19 @@ def rule_rw5(ctx):
         return
     # the pair selection by index (i != j) does not exclude equal elements: a guard comparing the two variables / comparisons must exist
     guards = []
+    # by role: the (keep, drop, ..) results of transitive_equality are the first two bindings of a 3-tuple pattern; a guard compares exactly those
+    pair_ids = []
+    for n in walk(body):
+        pats = []
+        if n.get("p") == "Tuple" and len(n.get("pats", [])) == 3:
+            pats = n["pats"]
+        if pats and all(q.get("p") == "Bind" for q in pats[:2]):
+            pair_ids.append({pats[0]["id"], pats[1]["id"]})
     for n in walk(body):
         if n.get("k") == "Binary" and n.get("op") in ("Ne", "Eq"):
             names = {local_of(n["l"]), local_of(n["r"])}
-            if names in ({"keep_var", "drop_var"}, {"c1", "c2"}, {"ct1", "ct2"}):
+            ids = {local_id_of(n["l"]), local_id_of(n["r"])}
+            if (None not in ids and ids in pair_ids) or names in ({"c1", "c2"}, {"ct1", "ct2"}):
                 guards.append(hq.render(n))
     pm = hq.parent_map(body)
     ctx.add("RW-5", "retain-by-value", bool(guards), ctx.site(b, rets[0]),
